@@ -216,7 +216,10 @@ class C04(Check):
     TRUSTED = ["state classification (_update_state float ratios) and int(debt*debt_interest) are executed in the model with "
                "PrimFloat/FloatOps (bit-exact with CPython binary64, no cases skipped); the theorems quantify over an arbitrary "
                "classifier and an arbitrary non-negative interest function, so no float reasoning is trusted in the proofs",
-               "modelled not verified: Python int -> float conversion is exact (all generated magnitudes < 2^53); "
+               "modelled not verified: Python's int -> float conversion is of_uint63 (magnitudes < 2^63); Python's int / int "
+               "true division (exact quotient, one rounding) is modelled by converting both operands first, which is the same "
+               "value when both are below 2^53 or the divisor is a power of two - the histories with amounts beyond 2^53 use "
+               "power-of-two capacities for that reason (the metabolic state is the only float-derived observation); "
                "`with self._lock` sections are atomic (single-threaded histories; interleavings are C05)",
                "the background regeneration thread never ticks: regeneration_rate=0, or > 0 with stop_regeneration() called "
                "while the thread is in its first (virtual) sleep - metabolism.py's names `time`/`threading` are rebound so that "
@@ -299,9 +302,16 @@ class C04(Check):
         ns = rng.choice([2, 2, 3])
         big = [2 ** 53 + 1, 2 ** 53 + 3, 2 ** 54 + 2, 2 ** 54 + 6, 10 ** 16 + 3, 10 ** 16 + 1, 2 ** 55 + 12, 3 * 2 ** 53 + 5,
                2 ** 53 - 1, 2 ** 53, 10 ** 17 + 9]
-        cfgs = [{"budget": rng.choice([2 ** 58, 2 ** 60, 10 ** 18, 2 ** 57 + 1]), "gtp": rng.choice([0, 10, 2 ** 55]),
-                 "nadh": rng.choice([0, 8, 2 ** 54 + 1]), "max_debt": rng.choice([0, 100, 2 ** 56]),
-                 "rate": rng.choice(RATES)} for _ in range(ns)]
+        # The metabolic state is the one observation derived from a float: total / capacity.  Python divides two ints
+        # exactly and rounds once; the model (and the generated code) convert both operands first.  The two agree when
+        # both are below 2**53 or the divisor is a power of two - so the capacities (max_atp + max_gtp) used with amounts
+        # beyond 2**53 are powers of two.
+        caps = [(2 ** 60, 0), (2 ** 59, 2 ** 59), (2 ** 58 - 2 ** 55, 2 ** 55), (2 ** 57, 2 ** 57), (2 ** 61 - 2 ** 56, 2 ** 56)]
+        cfgs = []
+        for _ in range(ns):
+            b, g = rng.choice(caps)
+            cfgs.append({"budget": b, "gtp": g, "nadh": rng.choice([0, 8, 2 ** 54 + 1]),
+                         "max_debt": rng.choice([0, 100, 2 ** 56]), "rate": rng.choice(RATES)})
         ops = []
         for _k in range(rng.choice([4, 8, 12, 20])):
             i, j = rng.randrange(ns), rng.randrange(ns)
